@@ -70,6 +70,7 @@ CONFIGS = [
     {"init": {"a": [1, 2]}, "vars": "model", "call_headers": True},
     {"init": {}, "vars": "empty", "call_headers": False},
     {"init": {"k": "v"}, "vars": "none", "call_headers": True},
+    {"init": None, "vars": "all_unset", "call_headers": False},
 ]
 WS_VARIANTS = [v for v in bc.VARIANTS if v[3]]
 
@@ -82,6 +83,8 @@ def make_variables(kind):
         return {}, None
     if kind == "plain":
         return {"id": "1", "n": [1, None]}, {"id": "1", "n": [1, None]}
+    if kind == "all_unset":  # a subscription with optional arguments only, none given: an EMPTY variables object travels
+        return {"a": bm.UNSET, "b": bm.UNSET}, {}
     if kind == "unset":
         return {"id": "1", "skip": bm.UNSET, "z": None}, {"id": "1", "z": None}
     In = _in_model()
